@@ -82,6 +82,10 @@ def run(program, res, tier):
     _s7_block_alignment(program, res)
     res.rule("C17-S6", "Polars stacks value columns of different dtypes the way Pandas does")
     _s6_polars_stacking(program, res)
+    res.rule("C17-S8", "both data models return the record specification's declared columns in its order")
+    from . import c08 as _c08
+    from ..report import Relabel as _Relabel
+    _c08._s7_record_transform_columns(program, _Relabel(res, {"*": "C17-S8"}))
     rm = program.cls("cdata", "RecordMap")
     # ---- S1
     inv = rm.methods.get("inverse")
